@@ -58,6 +58,10 @@ def obligations(cls):
                 if tt.strict:
                     out.append({"kind": "string-over-limit", "attr": a, "n": tt.length + 1})
                 out.append({"kind": "string-at-limit", "attr": a, "n": tt.length})
+                # the limit applies to the *decoded* data: n characters that each need escaping on the wire
+                out.append({"kind": "string-at-limit", "attr": a, "n": tt.length, "ch": "&"})
+                if tt.strict:
+                    out.append({"kind": "string-over-limit", "attr": a, "n": tt.length + 1, "ch": "<"})
             elif isinstance(tt, Types.Integer) and tt.length is not None:
                 out.append({"kind": "integer-over-limit", "attr": a, "value": 10**tt.length})
                 out.append({"kind": "integer-over-limit-negative", "attr": a, "value": -(10**tt.length)})
@@ -208,7 +212,7 @@ def build_violation(ob, base=None):
         desc["kw"][ob["attr"]] = ["raw", ob["token"]]
     elif kind in ("string-over-limit", "string-at-limit"):
         desc = _with(cls, [ob["attr"]], base)
-        desc["kw"][ob["attr"]] = ["str", "x" * ob["n"]]
+        desc["kw"][ob["attr"]] = ["str", ob.get("ch", "x") * ob["n"]]
     elif kind in ("integer-over-limit", "integer-over-limit-negative", "integer-at-limit"):
         desc = _with(cls, [ob["attr"]], base)
         desc["kw"][ob["attr"]] = ["int", ob["value"]]
